@@ -208,7 +208,7 @@ def run(ck):
         if kind == "nds":
             if not rep["spec_model"]:
                 ck.mismatch(case, "model output fails its own verified checker (model/proof out of sync)")
-            if rep["model_mask"] != mask or rep["model_idx"] != idx:
+            if rep["model_mask"] != mask or rep["model_idx"] != idx or rep["literal_idx"] != idx:
                 ck.mismatch(case, {"impl_mask": mask, "model_mask": rep["model_mask"], "impl_idx": idx, "model_idx": rep["model_idx"]})
             if not rep["spec_mask"] or not rep["spec_idx"]:
                 ck.fail("C11|not-pareto-exact|non_dominated_set", "selected set is not exactly the Pareto-optimal set (checkSel = false)",
